@@ -92,15 +92,69 @@ Theorem C19_refund_once :
 Proof. exact refund_once_fresh. Qed.
 Print Assumptions C19_refund_once.
 
-(* the tracking record is removed on success, failure and timeout alike: after a delivery by the core the record of
-   (channel, sequence) is gone — unless the delivery itself failed, which changes nothing and can be retried *)
+(* THE REFUND CLAUSE over histories.  Any history ops1 from a state satisfying the invariant (e.g. a fresh one); an EVM-started
+   transfer of n of token t by a over channel c is accepted and gets sequence q; then any operations ops2 that are not a
+   delivery of (c, q) itself (by the core or replayed) and not a genesis export / import (finding C19-2); at its time-out or
+   failure acknowledgement, under the guards (conversion enabled — C19_refund_refused_while_conversion_disabled otherwise —,
+   no voucher metadata, the bank invariant "balances are not negative" for the four accounts the refund passes through):
+     - the send took exactly n of a's ERC-20, the refund gives exactly n back, every other balance of a is as before the refund;
+     - record and commitment are gone;
+     - after ANY further operations ops3 (replays, duplicates, toggles, export / import …) the number of re-conversions of
+       (c, q) is exactly one and the record never comes back: no second refund. *)
+Theorem C19_refund_exact_over_histories :
+  forall isender s0 ops1 c a t n s2 ops2 o ops3,
+  inv s0 ->
+  let s1 := run isender ops1 s0 in
+  let q := nextseq s1 c in
+  send_from_evm c a (DAlias t) n s1 = Ok s2 -> 0 <= a -> 0 <= c ->
+  forallb (quiet c q) ops2 = true ->
+  let s3 := run isender ops2 s2 in
+  refund_guards s3 a c t n ->
+  o = Timeout c q \/ o = Ack c q false ->
+  let s4 := step isender s3 o in
+  let s5 := run isender ops3 s4 in
+  ibal s2 (a, AErc, t) = ibal s1 (a, AErc, t) - n /\
+  ibal s4 (a, AErc, t) = ibal s3 (a, AErc, t) + n /\
+  (forall k x, (k, x) <> (AErc, t) -> ibal s4 (a, k, x) = ibal s3 (a, k, x)) /\
+  in_rel (rel s4) c q = false /\ find_pk (commits s4) c q = None /\
+  count (is_reconv c q) (ilog s5) = 1%nat /\ in_rel (rel s5) c q = false.
+Proof. exact refund_exact_over_histories. Qed.
+Print Assumptions C19_refund_exact_over_histories.
+
+(* the same at one state: a recorded transfer in flight, the guards => the delivery pays exactly *)
+Theorem C19_refund_exact :
+  forall isender s c q a t n,
+  let pk := {| p_chan := c; p_seq := q; p_sender := a; p_denom := DAlias t; p_amt := n |} in
+  inflight s c q pk -> 0 < n -> 0 <= a -> 0 <= c -> refund_guards s a c t n ->
+  forall o, o = Timeout c q \/ o = Ack c q false ->
+  let s' := step isender s o in
+  ibal s' (a, AErc, t) = ibal s (a, AErc, t) + n /\
+  (forall k x, (k, x) <> (AErc, t) -> ibal s' (a, k, x) = ibal s (a, k, x)) /\
+  in_rel (rel s') c q = false /\ find_pk (commits s') c q = None /\
+  ilog s' = ilog s ++ [EvReconv c q a t n].
+Proof. exact delivery_exact. Qed.
+Print Assumptions C19_refund_exact.
+
+(* deliveries by the core, without an escape clause.  No commitment: nothing happens.  With one: a success acknowledgement always
+   goes through; a failure acknowledgement and a timeout are the same callback (the refund) and go through exactly when the
+   refund does — if it is refused (conversion switched off, …) the transaction fails, the state is EXACTLY as before and the
+   delivery can be repeated.  Whenever a delivery goes through, record and commitment of (channel, sequence) are gone. *)
 Theorem C19_record_removed_on_success_failure_timeout :
   forall c q s,
   let s0 := core_deliver (fun pk => on_ack pk true) c q s in
   let s1 := core_deliver (fun pk => on_ack pk false) c q s in
   let s2 := core_deliver on_timeout c q s in
-  (s0 = s \/ in_rel (rel s0) c q = false) /\ (s1 = s \/ in_rel (rel s1) c q = false) /\ (s2 = s \/ in_rel (rel s2) c q = false).
-Proof. exact delivery_removes_record. Qed.
+  match find_pk (commits s) c q with
+  | None => s0 = s /\ s1 = s /\ s2 = s
+  | Some pk =>
+      (in_rel (rel s0) c q = false /\ find_pk (commits s0) c q = None) /\
+      s1 = s2 /\
+      match refund pk (with_commits s (del_pk (commits s) c q)) with
+      | Ok x => s2 = x /\ in_rel (rel s2) c q = false /\ find_pk (commits s2) c q = None
+      | Err _ => s2 = s
+      end
+  end.
+Proof. exact delivery_outcomes. Qed.
 Print Assumptions C19_record_removed_on_success_failure_timeout.
 
 (* a success acknowledgement for a packet in flight never fails: record and commitment are gone, no balance moves *)
@@ -161,22 +215,29 @@ Theorem C19_alias_refund_refused_with_voucher_metadata :
 Proof. exact alias_refund_refused_with_voucher_metadata. Qed.
 Print Assumptions C19_alias_refund_refused_with_voucher_metadata.
 
-(* memo calls: under the stated disjointness (derived senders are not local accounts) no call ever runs as a local
-   account, over all operation lists … *)
-Theorem C19_no_impersonation :
+(* memo calls.  What the code guarantees is the DERIVATION: the EVM sender of a memo call is
+     IntermediateSender(port, source channel, sender string) = last 20 bytes of sha256(sha256("port/channel") || sender)
+   (C19_memo_call_sender_is_derived below: a function of the packet's source channel and sender string only — not of the receiver,
+   the memo, the amount —, for succeeding and failing calls alike).  That such an address is never a key-controlled or module
+   account is NOT provable from the code: it is the usual assumption on the hash (a collision between a sha256-derived address
+   and a keccak-of-public-key / module-name-derived one).  It is the HYPOTHESIS `forall c sd, is_local (isender c sd) = false` of
+   the two theorems below — they are conditional statements and named so; the harness re-computes the derivation independently
+   and checks every derived address it meets against all accounts with a key, code or module name.
+   Under the hypothesis no call ever runs as a local account, over all operation lists … *)
+Theorem C19_no_impersonation_under_hash_disjointness :
   forall (isender : Z -> Z -> Z) (is_local : Z -> bool),
   (forall c sd, is_local (isender c sd) = false) ->
   forall ops s a, In (EvCall a) (ilog (run isender ops s)) -> ~ In (EvCall a) (ilog s) -> is_local a = false.
 Proof. exact no_impersonation. Qed.
-Print Assumptions C19_no_impersonation.
+Print Assumptions C19_no_impersonation_under_hash_disjointness.
 
 (* … including calls that fail and whose packet is then refused *)
-Theorem C19_no_impersonation_failing_calls :
+Theorem C19_no_impersonation_failing_calls_under_hash_disjointness :
   forall (isender : Z -> Z -> Z) (is_local : Z -> bool),
   (forall c sd, is_local (isender c sd) = false) ->
   forall p s a, In (EvCall a) (ilog (written (hook_recv isender p s))) -> ~ In (EvCall a) (ilog s) -> is_local a = false.
 Proof. exact no_impersonation_failing_calls. Qed.
-Print Assumptions C19_no_impersonation_failing_calls.
+Print Assumptions C19_no_impersonation_failing_calls_under_hash_disjointness.
 
 (* the sender of a memo call is the one derived from the packet's source channel and original sender *)
 Theorem C19_memo_call_sender_is_derived :
